@@ -112,7 +112,7 @@ fn channels(rounds: usize, rng: &mut Lcg) {
             match rng.below(4) {
                 0 | 1 => {
                     let v = rng.below(100) as u32;
-                    if queued < 8 {
+                    if queued < 4 {
                         let x = ta.as_ref().map(|t| t.send(v).is_ok());
                         let y = tb.as_ref().map(|t| t.send(v).is_ok());
                         assert_eq!(x, y);
